@@ -565,7 +565,8 @@ def caller_prop(line, impl, model):
     a = line.split(" ")
     name, what = CALLER[a[1]]
     if impl.startswith("!panic") or impl in ("!died", "!hang"):
-        return "%s %s on a message a remote party can send: %r (%s)" % (what, "panicked" if impl != "!hang" else "hangs", caller_body(a), impl[:160])
+        how = {"!died": "terminated the process (panic outside the calling goroutine, or exit)", "!hang": "hangs"}.get(impl, "panicked")
+        return "%s %s on a message a remote party can send: %r (%s)" % (what, how, caller_body(a), impl[:160])
     if impl == "!nilnil":
         return "%s returned neither a description nor an error on %r: its caller dereferences the result" % (what, caller_body(a))
     if impl == "!description-and-error":
@@ -606,6 +607,53 @@ def crosscheck_once(ctx, pools, n):
         ctx.extra["vm_compute_crosschecked"] = ctx.extra.get("vm_compute_crosschecked", 0) + len(sample)
         for i in bad:
             ctx.not_shown("extraction cross-check: vm_compute and extracted runner differ on `%s`" % sample[i][0][:300])
+
+
+def robust_run(ctx, exe, lines, args, label):
+    """Run the driver on `lines`; returns (path of a file with one result line per case, notes).  When the driver
+    process dies - the code under test panicked on a goroutine other than the one that runs the case, or exited -
+    the results it had buffered are lost with it; the cases are then run again in blocks, and the cases of every
+    block that dies one process each, so that exactly the cases that kill the process get the observable `!died`
+    and every other case keeps its real result."""
+    import os, tempfile
+    rc, res, err = vlib.run_impl(exe, lines, args=args)
+    if rc != 0 or len(res) != len(lines):
+        res = []
+        step = 64
+        for i in range(0, len(lines), step):
+            chunk = lines[i:i + step]
+            rc, r, err = vlib.run_impl(exe, chunk, args=args)
+            if rc == 0 and len(r) == len(chunk):
+                res += r
+                continue
+            died = 0
+            for l in chunk:
+                rc1, r1, e1 = vlib.run_impl(exe, [l], args=args)
+                if rc1 == 0 and len(r1) == 1:
+                    res.append(r1[0])
+                else:
+                    died += 1
+                    res.append("!died")
+                    if died == 1:
+                        tail = " | ".join(x.strip() for x in e1.split("\n") if x.startswith(("panic:", "fatal error:", "[signal")))[:400]
+                        ctx.extra.setdefault("driver_process_exits", []).append("%s: status %s on `%s`: %s" % (label, rc1, l[:160], tail or e1[-200:]))
+            if not died:
+                ctx.not_shown("%s: the driver died in cases %d..%d but on none of them alone (state carried over between cases)" % (label, i, i + len(chunk) - 1))
+    os.makedirs(vlib.TMP, exist_ok=True)
+    fd, path = tempfile.mkstemp(prefix="c13res_", dir=vlib.TMP)
+    with os.fdopen(fd, "w") as f:
+        f.write("\n".join(res) + "\n")
+    return path
+
+
+def correspond_robust(ctx, exe, lines, kinds, args, label, prop, key_of):
+    """ctx.correspond on results obtained with robust_run (`cat <file>` stands in for the driver)"""
+    import os
+    path = robust_run(ctx, exe, lines, args, label)
+    try:
+        return ctx.correspond("/bin/cat", lines, kinds, label=label, prop=prop, key_of=key_of, impl_args=[path], crosscheck=0)
+    finally:
+        os.remove(path)
 
 
 class Batch:
@@ -649,12 +697,12 @@ def run(ctx):
     texts = peer_part(ctx, pexe, pbatch)
     peerg_part(ctx, pexe, texts, pbatch)
     callers_part(ctx, pexe, cexe, pbatch, cbatch)
-    model, impl = ctx.correspond(pexe, pbatch.lines, pbatch.kinds, label="proxy/lib", prop=any_prop, key_of=any_key, impl_args=C13_ARGS, crosscheck=0)
+    model, impl = correspond_robust(ctx, pexe, pbatch.lines, pbatch.kinds, C13_ARGS, "proxy/lib", any_prop, any_key)
     pools.append((pbatch.lines, model))
     pa = [r for l, r in zip(pbatch.lines, impl) if l.startswith("sdpstrip peer ")]
     ctx.extra["peer_address_results"] = {"nil": sum(1 for r in pa if r == "nil"), "address": sum(1 for r in pa if r.startswith("x")),
                                          "from_candidate_or_conn_line": "both paths generated (candidates removed from half of the grammar texts)"}
-    model, _ = ctx.correspond(cexe, cbatch.lines, cbatch.kinds, label="client/lib", prop=any_prop, key_of=any_key, impl_args=C13_ARGS, crosscheck=0)
+    model, _ = correspond_robust(ctx, cexe, cbatch.lines, cbatch.kinds, C13_ARGS, "client/lib", any_prop, any_key)
     pools.append((cbatch.lines, model))
     crosscheck_once(ctx, pools, 90)
 
